@@ -342,10 +342,13 @@ class Scen(CompScenario):
                 late = getattr(self.stub, mk["late"])
                 tb = getattr(self.stc, mk["late"])[[id(x) for x in late].index(id(mk["method"]))]
                 mm = self.make_mock(mi, tb, MethodMock, def_method_mock)
-            procs = [("process", mm.output_process)]
-            if mm.validate_arguments is not None:  # as PysimSimulator.add_mock does
-                procs.append(("process", mm.validate_arguments_process))
-            units[mk["name"]] = procs + [("background", mm.effect_process)]
+            procs, bg = [], []
+            for one in (mm if isinstance(mm, list) else [mm]):
+                procs.append(("process", one.output_process))
+                if one.validate_arguments is not None:  # as PysimSimulator.add_mock does
+                    procs.append(("process", one.validate_arguments_process))
+                bg.append(("background", one.effect_process))
+            units[mk["name"]] = procs + bg
         if c.get("glitch"):
             units["g"] = [("background", self.make_glitcher(c["glitch"]))]
         order = [u for u in c["order"] if u in units] + sorted(u for u in units if u not in c["order"])
@@ -401,7 +404,7 @@ class Scen(CompScenario):
 
         kw: dict = {"delay": mc["delay_ns"] * 1e-9}
         form = mock_form(mc)
-        if form == 2:
+        if form in (2, 3):
             # class-level form, as the library's own tests write it: everything takes `self`
             if pattern is not None:
                 kw["enable"] = lambda self_: enable()
@@ -417,6 +420,26 @@ class Scen(CompScenario):
                     return fn(a)
 
             Holder = type("Holder", (), {"tb": tb, "mock": def_method_mock(lambda self_: self_.tb, **kw)(method)})
+            if form == 3:
+                # the definition overrides one of a base class, and the mocks are discovered the way the library's test
+                # case does it (TestCaseWithSimulatorBase._add_class_mocks): the overridden definition must stay unused
+                from transactron.testing.test_case import TestCaseWithSimulatorBase
+
+                used = self.overridden_used = getattr(self, "overridden_used", [])
+
+                def overridden(self_, *args, **kwargs):
+                    used.append(mi)
+                    return {}
+
+                Base = type("Base", (), {"tb": tb, "mock": def_method_mock(lambda self_: self_.tb, delay=kw["delay"])(overridden)})
+                Derived = type("Derived", (Base,), {"mock": Holder.__dict__["mock"]})
+                holder = Derived()
+                found: list = []
+                collector = type("Collector", (), {"add_mock": lambda self_, mm: found.append(mm),
+                                                   "add_process": lambda self_, p: None})()
+                TestCaseWithSimulatorBase._add_class_mocks(holder, collector)
+                self.expect(found, "class-mock-not-found", "the class-level mock definition was not discovered")
+                return found
             holder = Holder()
             return holder.mock()
         if pattern is not None:
@@ -619,6 +642,9 @@ class Scen(CompScenario):
 
     def finish(self):
         self.raise_errors()
+        if getattr(self, "overridden_used", None):
+            raise Violation("overridden-class-mock-used", f"the overridden base-class definition of mock(s) "
+                            f"{sorted(set(self.overridden_used))} was invoked although the derived class redefines it")
         if self._ctx is None:
             return
         ctx = self._ctx
@@ -793,7 +819,7 @@ class Scen(CompScenario):
             if same:
                 self.hit("mock_consecutive_calls_same_argument", same)
             form = mock_form(mc)
-            self.hit(("mock_def_method_mock", "mock_direct", "mock_class_level_bound")[form], len(runs))
+            self.hit(("mock_def_method_mock", "mock_direct", "mock_class_level_bound", "mock_class_level_discovered_overriding")[form], len(runs))
             if mc.get("argstyle"):
                 self.hit("mock_single_arg_style", len(runs))
             if mc["enable"] is None:
@@ -913,7 +939,7 @@ def _gen_mock(rng, sink=False, tx=False):
         pat = [int(rng.random() < q) for _ in range(ln)]
         if not any(pat):
             pat[rng.randrange(ln)] = 1
-    form = rng.choice([0, 0, 1, 2, 2])
+    form = rng.choice([0, 0, 1, 2, 2, 3])
     validate = None
     if rng.random() < 0.3:
         mask = rng.choice([0x03, 0x81, 0x10, 0x0C, 0x01, 0x60])
@@ -949,7 +975,7 @@ class Prop(PropBase):
                     "mock_disabled_blocked_request", "glitch_run",
                     "chain_mock_exec", "chain_result_matches_mock", "chain_call_rejected_argument_none",
                     "two_mocks_in_one_body_exec", "mock_with_0_effects", "mock_with_1_effects", "mock_with_2_effects",
-                    "mock_with_3_effects", "mock_def_method_mock", "mock_direct", "mock_class_level_bound",
+                    "mock_with_3_effects", "mock_def_method_mock", "mock_direct", "mock_class_level_bound", "mock_class_level_discovered_overriding",
                     "mock_default_enable", "mock_single_arg_style", "mock_returning_none_exec", "mock_validating_exec",
                     "mock_made_before_elaboration", "request_with_rejected_argument", "call_without_data_done",
                     "pair_done", "pair_none", "pairu_done", "until_all_done", "two_calls_of_one_trigger_in_one_cycle",
